@@ -205,7 +205,7 @@ def finish_cond(ctx, tree, job):
 
 
 # ---------------------------------------------------------- 2. include part
-FAMS = [("R1", 3), ("R2", 2), ("G", 1), ("P", 1)]
+FAMS = [("R1", 3), ("R2", 2), ("C", 2), ("G", 1), ("P", 1)]
 
 
 def incl_materialise(b, cdir, tree):
@@ -293,7 +293,8 @@ def replay_incl(ctx, tree, behs, oracle_only=False):
     return bad
 
 
-CONTROLS = [("include_next_idx global", "R1", 3, dict(NextAlg='"global"')),
+CONTROLS = [("file-name cache consulted before the includer's directory", "C", 2, dict(CacheFirst=True)),
+            ("include_next_idx global", "R1", 3, dict(NextAlg='"global"')),
             ("-idirafter argument", "R1", 3, dict(FixIdirArg=False)),
             ("-idirafter order", "R1", 3, dict(FixIdirOrder=False)),
             ("detect_include_guard pinned", "G", 1, dict(GuardAlg='"pinned"')),
@@ -306,7 +307,7 @@ def submit_incl(ctx, pool):
         for d in ("/usr/local/include", "/usr/include/x86_64-linux-gnu", "/usr/include"):
             if os.path.exists("%s/%s.h" % (d, n)):
                 raise Infra("%s/%s.h exists on this machine; scenario header names would collide" % (d, n))
-    strides = dict(R1=3, R2=16, G=1, P=1) if q else dict(R1=1, R2=1, G=1, P=1)
+    strides = dict(R1=3, R2=16, C=8, G=1, P=1) if q else dict(R1=1, R2=1, C=1, G=1, P=1)
     jobs = dict(gen=[], ctl=[])
     for fam, nopt in FAMS:
         out = os.path.join(ctx.scratch, "incl-%s.ndjson" % fam)
@@ -314,7 +315,7 @@ def submit_incl(ctx, pool):
         jobs["gen"].append((fam, out, cfg, pool.submit(ctx.tlc, "pp", "Include", cfg, env=dict(OUT=out), workers=2 if q else 4, timeout=1500)))
     # sensitivity controls: the pinned algorithms must be rejected by TLC
     for name, fam, nopt, kw in CONTROLS:
-        cfg = ctx.cfg("pp", "Include_mc.cfg", Fam='"%s"' % fam, NOpt=nopt, Stride=1 if fam == "G" else 6, **kw)
+        cfg = ctx.cfg("pp", "Include_mc.cfg", Fam='"%s"' % fam, NOpt=nopt, Stride=1 if fam == "G" else (8 if fam == "C" else 6), **kw)
         jobs["ctl"].append((name, pool.submit(ctx.tlc, "pp", "Include", cfg, workers=1, count=False)))
     return jobs
 
@@ -334,7 +335,7 @@ def finish_incl(ctx, tree, jobs):
         behs.sort(key=lambda b: json.dumps(b, sort_keys=True))
         replay_incl(ctx, tree, behs)
         total += len(behs)
-        if fam in ("R2", "G"):
+        if fam in ("R2", "C", "G"):
             b = behs[len(behs) // 3]
             ctx.sample(dict(kind="include scenario", family=fam, options=b["kinds"], files={"d%d/%s.h" % (f["d"], f["n"]): f["text"] for f in b["files"]},
                             main=b["main"], expected_tokens=b["exp"]))
@@ -365,13 +366,23 @@ BOUNDARY = [
     ("3000000000 > 0", 1, False), ("-3000000000 < 0", 1, False), ("0x100000000 / 0x10000 == 0x10000", 1, False),
     ("(-7) / 2", -3, False), ("(-7) % 2", -1, False), ("7 / (-2)", -3, False), ("1 ? 2 : (1/0)", 2, False),
     ("0 && (1/0)", 0, False), ("1 || (1/0)", 1, False), ("!0x100000000", 0, False), ("0x100000000 && 1", 1, False),
+    # non-zero values whose low 32 (16, 8) bits are all zero: a result narrowed to int/short/char would select #else
+    ("0x100000000", 2**32, False), ("1 << 32", 2**32, False), ("1 << 40", 2**40, False), ("1 << 62", 2**62, False),
+    ("-1 & ~0xFFFFFFFF", -2**32, False), ("-4294967296", -2**32, False), ("0xFFFFFFFF00000000u", 2**64 - 2**32, True),
+    ("0x7fffffff00000000", 0x7fffffff00000000, False), ("1u << 63", 2**63, True), ("0x8000000000000000", 2**63, True),
+    ("-0x7fffffffffffffff - 1", -2**63, False), ("65536 * 65536 * 3", 3 * 2**32, False), ("0x10000", 65536, False),
+    ("0x100", 256, False), ("0x300000000 - 0x100000000", 2**33, False), ("0x100000000 ? 1 : 0", 1, False),
+    ("0x100000000 - 0x100000000", 0, False), ("0x100000000 ^ 0x100000000", 0, False), ("0u", 0, True),
 ]
 
 
 def ifexpr_case_text(k, e, v, u):
     val = "(%d)" % v if v < 2**63 else "%du" % v
     return ["#if (%s) == %s" % (e, val), "E%d v" % k, "#else", "E%d x" % k, "#endif",
-            "#if ((%s) - (%s) - 1) < 0" % (e, e), "E%d s" % k, "#else", "E%d u" % k, "#endif"]
+            "#if ((%s) - (%s) - 1) < 0" % (e, e), "E%d s" % k, "#else", "E%d u" % k, "#endif",
+            # the expression itself selects the group: taken iff its value compares unequal to 0 (6.10.1p4)
+            "#if %s" % e, "E%d t" % k, "#else", "E%d f" % k, "#endif",
+            "#if 0", "E%d z" % k, "#elif %s" % e, "E%d t" % k, "#else", "E%d f" % k, "#endif"]
 
 
 def replay_ifexpr(ctx, tree, exprs, tag, batch=100):
@@ -411,7 +422,8 @@ def replay_ifexpr(ctx, tree, exprs, tag, batch=100):
     for res in vt.pmap(run_batch, chunks):
         for k, rc, got, err in res:
             e, v, u = exprs[k]
-            exp = ["v", "u" if u else "s"]
+            sel = "t" if v != 0 else "f"
+            exp = ["v", "u" if u else "s", sel, sel]
             ctx.note_case("ifexpr:" + e, nontrivial=True)
             if rc == 0 and got == exp:
                 continue
@@ -419,8 +431,10 @@ def replay_ifexpr(ctx, tree, exprs, tag, batch=100):
                 cls = "rejected"
             elif got[:1] != ["v"]:
                 cls = "value"
-            else:
+            elif got[1:2] != exp[1:2]:
                 cls = "signedness"
+            else:
+                cls = "group-selection"
             neg = "neg" if (v < 0 or "-" in e or "~" in e) else "nonneg"
             sig = "ifexpr:%s:%s:%s:%s" % (tag, cls, "unsigned" if u else "signed", neg)
             if not settled(sig):
@@ -428,7 +442,7 @@ def replay_ifexpr(ctx, tree, exprs, tag, batch=100):
                 open(f, "w").write("\n".join(pre + ifexpr_case_text(k, e, v, u)) + "\n")
                 grc, gg = gcc_E([f], d)
                 os.unlink(f)
-                if grc != 0 or gg != ["E%d" % k, "v", "E%d" % k, exp[1]]:
+                if grc != 0 or gg != [x for y in exp for x in ("E%d" % k, y)]:
                     ctx.oracle_disagreements += 1
                     continue
                 CONFIRMED[sig] = CONFIRMED.get(sig, 0) + 1
@@ -465,7 +479,12 @@ def finish_ifexpr(ctx, tree, job):
     exprs = [(r["e"], r["v"], r["u"]) for r in rows]
     ctx.sample(dict(kind="#if expression", expr=exprs[len(exprs) // 2][0], value=exprs[len(exprs) // 2][1], unsigned=exprs[len(exprs) // 2][2]))
     replay_ifexpr(ctx, tree, exprs, "gen")
-    replay_ifexpr(ctx, tree, [(e, v if not u else v % M64, u) for e, v, u in BOUNDARY], "boundary")
+    seen, table = set(), []
+    for e, v, u in BOUNDARY:
+        if e not in seen:
+            seen.add(e)
+            table.append((e, v if not u else v % M64, u))
+    replay_ifexpr(ctx, tree, table, "boundary")
     return dict(if_expressions=len(exprs), if_boundary_expressions=len(BOUNDARY))
 
 
